@@ -5,8 +5,8 @@ import RTV.Model.DtPeriod
 `Y M D secs`, a datetime argument is `Y-M-D@secs`, a TIMEX argument is plain text (`-` = empty), a flag is `0`/`1`.
 Answer: `timex TAB futureBegin TAB futureEnd TAB pastBegin TAB pastEnd` | `none` | `err:Other`, followed by
 `TAB ampm-flag` for the operations marked (+c).
-  dp.merge both|begin|end fb pb timex1 fe pe timex2 c1 c2                       (+c)
-  dp.datetp fd pd dateTimex tpTimex beginTime endTime tpAmPm                    (+c)
+  dp.merge both|begin|end fb pb timex1 fe pe timex2 c1 c2 fixes                 (+c)   fixes = three flags `bep` (e.g. `101`)
+  dp.datetp fd pd dateTimex tpTimex beginTime endTime tpAmPm fixes              (+c)
   dp.simple beginHour endHour isAm isPm fd pd dateTimex                        (+c)
   dp.tod Y M D secs swift morning|afternoon|evening|night early late
   dp.datetod fd pd dateTimex tod early late
@@ -32,6 +32,11 @@ def parseRel (f : String) : RelUnit :=
   match f with
   | "D" => .D | "H" => .H | "M" => .M | _ => .S
 
+def parseFixes (f : String) : Fixes :=
+  match f.toList with
+  | [a, b, c] => ⟨a == '1', b == '1', c == '1'⟩
+  | _ => ⟨false, false, false⟩
+
 def showC (r : Res × Bool) : String := s!"{showRes r.1}\t{showBool r.2}"
 
 end RTV.Drv.DtPeriodH
@@ -39,11 +44,11 @@ namespace RTV.Drv
 open RTV.Drv.PeriodsH RTV.Drv.DtPeriodH RTV.DtPeriod RTV.Py in
 def dispatchDtPeriod (op : String) (args : List String) : Option String :=
   match op, args with
-  | "dp.merge", [k, fb, pb, t1, fe, pe, t2, c1, c2] =>
-    some (showC (mergeTwoTimePoints (parseEnds k) (parseDT fb) (parseDT pb) (tx t1) (parseDT fe) (parseDT pe) (tx t2)
+  | "dp.merge", [k, fb, pb, t1, fe, pe, t2, c1, c2, fx] =>
+    some (showC (mergeTwoTimePointsV (parseFixes fx) (parseEnds k) (parseDT fb) (parseDT pb) (tx t1) (parseDT fe) (parseDT pe) (tx t2)
       (parseBool c1) (parseBool c2)))
-  | "dp.datetp", [fd, pd, dt, tt, bt, et, c] =>
-    some (showC (mergeDateAndTimePeriod (parseDT fd) (parseDT pd) (tx dt) (tx tt) (parseDT bt) (parseDT et) (parseBool c)))
+  | "dp.datetp", [fd, pd, dt, tt, bt, et, c, fx] =>
+    some (showC (mergeDateAndTimePeriodV (parseFixes fx) (parseDT fd) (parseDT pd) (tx dt) (tx tt) (parseDT bt) (parseDT et) (parseBool c)))
   | "dp.simple", [bh, eh, am, pm, fd, pd, dt] =>
     some (showC (simpleCases (parseNat bh) (parseNat eh) (parseBool am) (parseBool pm) (parseDT fd) (parseDT pd) (tx dt)))
   | "dp.tod", [y, m, d, s, sw, tod, e, l] =>
